@@ -917,6 +917,30 @@ pub fn gen(stream: &str, tier: &str, seed: u64) -> Vec<String> {
             }
         }
         "sib" => {
+            // a forbidden character at EVERY position of topic names / filters of every length up to 40 (and around 64):
+            // a validator that scans in words or blocks must not have a blind window at any (length, position)
+            for v3 in [true, false] {
+                let fam = if v3 { "v3" } else { "v5" };
+                let mut lens: Vec<usize> = (1..=40).collect();
+                lens.extend([47, 48, 49, 63, 64, 65, 72, 73]);
+                for len in lens {
+                    for pos in 0..len {
+                        for c in [b'+', b'#', 0u8] {
+                            let mut t = vec![b'a'; len];
+                            if len > 12 {
+                                t[len / 3] = b'/';
+                            }
+                            t[pos] = c;
+                            let t = String::from_utf8(t).unwrap();
+                            for f in topic_frames(v3, &t) {
+                                let h = hex(&f);
+                                out.push(format!("dec {} {}", fam, h));
+                                out.push(format!("spec {} {}", fam, h));
+                            }
+                        }
+                    }
+                }
+            }
             for v3 in [true, false] {
                 let fam = if v3 { "v3" } else { "v5" };
                 for f in sibling_frames(v3, thorough) {
